@@ -356,6 +356,26 @@ func init() {
 		return nil
 	})
 
+	reg("maps.clone", func(ex *Exec, fn *ssa.Function, a []Value) Value {
+		iv := a[0].(Iface)
+		m := iv.v.(*Map)
+		if m == nil {
+			return iv
+		}
+		n := newMap()
+		for i := range m.keys {
+			if m.live[i] {
+				n.keys = append(n.keys, m.keys[i])
+				n.vals = append(n.vals, copyVal(m.vals[i]))
+				n.live = append(n.live, true)
+				n.cnt++
+				if h, ok := ex.hashKey(m.keys[i]); ok {
+					n.idx[h] = len(n.keys) - 1
+				}
+			}
+		}
+		return Iface{t: iv.t, v: n}
+	})
 	// ---- misc -------------------------------------------------------------
 	reg("runtime.KeepAlive", func(ex *Exec, fn *ssa.Function, a []Value) Value { return nil })
 	reg("runtime.SetFinalizer", func(ex *Exec, fn *ssa.Function, a []Value) Value { return nil })
